@@ -9,6 +9,7 @@ from fractions import Fraction as F
 import numpy as np
 
 import clmodel as clm
+import common
 from common import frac_str
 
 SETTING_KEYS = ['heuristic_reduction', 'presolve_trivial_age_cones', 'sum_age_force_equality', 'compact_dual', 'kernel_basis']
@@ -37,7 +38,11 @@ def rand_settings(rng):
 def gen_alpha(rng, m, n, style=None):
     style = style or rng.choice(['int', 'int', 'half', 'nonneg_zero', 'nonneg_zero'])
     rows, seen = [], set()
+    attempts = 0
     while len(rows) < m:
+        attempts += 1
+        if attempts > 200:
+            break                      # not enough distinct rows of this style (small n): fewer terms
         if style == 'half':
             r = tuple(F(rng.randint(-3, 4), 2) for _ in range(n))
         elif style == 'nonneg_zero':
@@ -127,8 +132,15 @@ def gen_instance(rng, primal=True, m=None, n=None):
         inst['c'] = gen_c_spec(rng, m, nuser)
     else:
         # v: a Variable of length m, or an affine image C w + d of a Variable w
-        if rng.random() < 0.6 or nuser == 0:
+        r = rng.random()
+        if r < 0.5:
             inst['v'] = None
+        elif r < 0.75 or nuser == 0:
+            # v_j = a_j * w_j + d_j: an affine image with constant part that can reach every moment vector
+            inst['nuser'] = m
+            inst['v'] = [{'off': frac_str(F(rng.choice([0, 1, -1, 2]))), 'co': [[j, frac_str(F(rng.choice([1, 2, -1, F(1, 2)])))]]}
+                         for j in range(m)]
+            inst['vdiag'] = True
         else:
             inst['v'] = [{'off': frac_str(F(rng.choice([0, 0, 1]))),
                           'co': [[k, frac_str(F(rng.choice([1, 2, -1])))] for k in sorted(rng.sample(range(nuser), rng.randint(1, nuser)))]}
@@ -269,6 +281,29 @@ def impl_compile(b):
     return out
 
 
+def systems_equal(io, mo, rtol=1e-11):
+    """cols, K, ech exact; A and b numerically (rows the model flags as e-scaled divided by e first): kernel-basis
+    entries are arbitrary floats, so string snapping is not appropriate here"""
+    if io['cols'] != mo['cols'] or io['K'] != mo['K']:
+        return False
+    if common.canon_json(io['ech']) != common.canon_json(mo['ech']):
+        return False
+    er = mo.get('eRows', [])
+    A = np.asarray(io['A'], dtype=float).reshape(len(io['b']), len(io['cols']))
+    bb = np.asarray(io['b'], dtype=float)
+    if len(er) != len(bb) or len(mo['A']) != len(bb):
+        return False
+    for r in range(len(bb)):
+        sc = np.e if er[r] else 1.0
+        mrow = [float(F(x)) for x in mo['A'][r]]
+        for a, q in zip((A[r] / sc).tolist(), mrow):
+            if abs(a - q) > rtol * max(1.0, abs(q)):
+                return False
+        if abs(bb[r] / sc - float(F(mo['b'][r]))) > rtol * max(1.0, abs(float(F(mo['b'][r])))):
+            return False
+    return True
+
+
 def canon_pair(io, mo):
     a = clm.canon_impl(io, mo.get('eRows', []))
     a.pop('vmap', None)
@@ -288,18 +323,19 @@ def sig_eval(alpha, c, x):
     return float(np.dot(np.asarray(c, dtype=float), np.exp(a @ np.asarray(x, dtype=float))))
 
 
-def domain_points(dom, n, rng, count=40):
+def domain_points(dom, n, rng, count=40, lifted=False):
     """points of X = {x : exists aux, A [x, aux] + b in K} found by rejection sampling on small rational grids
     (only for domains without lifted columns); returns list of float vectors"""
     pts = []
     if dom is None:
         return [[rng.randint(-4, 4) / 2.0 for _ in range(n)] for _ in range(count)]
-    if dom['N'] != n:
+    if dom['N'] != n and not lifted:
         return []
-    A = np.array([[float(F(v)) for v in r] for r in dom['A']], dtype=float).reshape(len(dom['b']), n)
+    N = dom['N']
+    A = np.array([[float(F(v)) for v in r] for r in dom['A']], dtype=float).reshape(len(dom['b']), N)
     bb = np.array([float(F(v)) for v in dom['b']], dtype=float)
     for _ in range(count * 30):
-        x = np.array([rng.randint(-8, 8) / 4.0 for _ in range(n)])
+        x = np.array([rng.randint(-8, 8) / 4.0 for _ in range(N)])
         s = A @ x + bb
         ok, i = True, 0
         for t, l in dom['K']:
